@@ -116,7 +116,8 @@ func rulesC10(c *Ctx) {
 	// "… to decide whether the execution succeeded": the verdict the completion listeners are given
 	c16Executor(c)
 	// "sees the failed result and error as the execution's last result": what CopyWithResult hands on
-	execStateMethods(c, map[string]bool{"CopyWithResult": true})
+	// "… and the execution is not cancelled": the cancellation test the fallback takes before and after its function
+	execStateMethods(c, map[string]bool{"CopyWithResult": true, "copy": true, "IsCanceledWithResult": true, "isCanceledWithResult": true, "Cancel": true})
 	c.Rule("fresh-executor")
 	c01Self(c)
 	buildCopiesConfig(c)
@@ -374,6 +375,10 @@ func rulesC11(c *Ctx) {
 	c12AnyOf(c)
 	// "a string key supplied through the context takes precedence": the context executions see is the one given
 	c01WithContext(c)
+	// … and the context an attempt made by an enclosing policy sees (a hedge's, a timeout's child) derives from it, so
+	// the key travels with it
+	c.Rule("execution-protocol")
+	execStateMethods(c, map[string]bool{"CopyForHedge": true, "CopyForCancellable": true, "copy": true, "CopyWithResult": true})
 	buildersStore(c, "cachepolicy")
 	delegatingBuilders(c, "cachepolicy")
 }
